@@ -8,6 +8,7 @@ import (
 	"github.com/openbao/openbao/v2/internal/builtin/logical/kv"
 	"github.com/openbao/openbao/v2/internal/helper/namespace"
 	"github.com/openbao/openbao/v2/internal/vault"
+	"github.com/openbao/openbao/v2/internal/vault/barrier"
 	"github.com/openbao/openbao/sdk/v2/logical"
 )
 
@@ -201,8 +202,78 @@ func c10CoreBody(rc *RunCtx) {
 	}
 
 	steps := 2 + tp.Pick(4)
+	nsDone := false
 	for i := 0; i < steps && s.Viol == nil; i++ {
-		switch tp.Pick(5) {
+		switch tp.Pick(6) {
+		case 5: // per-namespace seals, nested: outer/ and outer/inner/ each with its own Shamir seal
+			if nsDone {
+				write(400 + i)
+				hist = append(hist, "write")
+				continue
+			}
+			nsDone = true
+			hist = append(hist, "nested namespace seals")
+			mk := func(nsHeader, name string) string {
+				r, err := h.Do("ns", Req{Op: logical.UpdateOperation, Path: "sys/namespaces/" + name, Token: h.Root, NS: nsHeader, Data: map[string]any{"seal": `seal "shamir" { shares = 1  threshold = 1 }`}})
+				if err != nil || r == nil || r.IsError() {
+					return ""
+				}
+				key := ""
+				switch ks := r.Data["key_shares"].(type) {
+				case []string:
+					if len(ks) > 0 {
+						key = ks[0]
+					}
+				case []any:
+					if len(ks) > 0 {
+						key = fmt.Sprint(ks[0])
+					}
+				}
+				h.Do("ns", Req{Op: logical.UpdateOperation, Path: "sys/namespaces/" + name + "/unseal", Token: h.Root, NS: nsHeader, Data: map[string]any{"key": key}})
+				return key
+			}
+			outerKey := mk("", "outer")
+			innerKey := mk("outer/", "inner")
+			if outerKey == "" || innerKey == "" {
+				s.Probe("nested_namespaces_not_created")
+				continue
+			}
+			nsdo := func(ns string, op logical.Operation, path string, data map[string]any) (*logical.Response, error) {
+				return h.Do("ns", Req{Op: op, Path: path, Token: h.Root, NS: ns, Data: data})
+			}
+			nsdo("outer/inner/", logical.UpdateOperation, "sys/mounts/secret", map[string]any{"type": "kv"})
+			if _, err := nsdo("outer/inner/", logical.UpdateOperation, "secret/n", map[string]any{"v": "inner-value"}); err != nil {
+				s.Probe("nested_namespaces_not_created")
+				continue
+			}
+			ib := vault.VerifBarrierFor(h.Core, "outer/inner/")
+			if ib == nil || ib == vault.VerifBarrier(h.Core) {
+				s.Probe("nested_barrier_not_found")
+				continue
+			}
+			if r, err := nsdo("", logical.UpdateOperation, "sys/namespaces/outer/seal", nil); err != nil || (r != nil && r.IsError()) {
+				viol("valid-operation-refused", map[string]any{"op": "namespace-seal"}, "sealing outer/ failed: %v %v", err, r)
+				return
+			}
+			if !ib.Sealed() || barrier.VerifHoldsKeyMaterial(ib) {
+				viol("sealed-namespace-barrier-open", map[string]any{"nested": true}, "outer/ is sealed; the barrier of outer/inner/ (own seal) is sealed=%v, holds key material=%v", ib.Sealed(), barrier.VerifHoldsKeyMaterial(ib))
+				return
+			}
+			if r, err := nsdo("outer/inner/", logical.ReadOperation, "secret/n", nil); err == nil && r != nil && !r.IsError() && len(r.Data) > 0 {
+				viol("sealed-core-served-request", map[string]any{"nested": true}, "a read inside outer/inner/ while outer/ is sealed returned %v", r.Data)
+				return
+			}
+			nsdo("", logical.UpdateOperation, "sys/namespaces/outer/unseal", map[string]any{"key": outerKey})
+			if r, err := nsdo("outer/inner/", logical.ReadOperation, "secret/n", nil); (err == nil && r != nil && !r.IsError() && len(r.Data) > 0) || !ib.Sealed() {
+				viol("unsealed-below-threshold", map[string]any{"how": "outer-namespace-shares-only"}, "outer/ was unsealed with its own share; outer/inner/ (own seal, none of its shares supplied) is sealed=%v", ib.Sealed())
+				return
+			}
+			nsdo("outer/", logical.UpdateOperation, "sys/namespaces/inner/unseal", map[string]any{"key": innerKey})
+			if r, err := nsdo("outer/inner/", logical.ReadOperation, "secret/n", nil); err != nil || r == nil || r.Data["v"] != "inner-value" {
+				viol("entry-lost-after-crash", map[string]any{"op": "namespace-seal-unseal", "level": "core"}, "after sealing outer/ and unsealing outer/ and outer/inner/ with their shares the entry of outer/inner/ does not read back: %v %v", r, err)
+				return
+			}
+			s.Probe("nested_namespace_seal_cycle")
 		case 4: // root key rotation through the API (sys/rotate/root)
 			hist = append(hist, "sys/rotate/root")
 			from := disk.LogLen()
